@@ -17,6 +17,9 @@ pub struct Menu {
     /// offer at most this many most-recent variables per type
     pub vars_per_type: usize,
     pub alias_patterns: bool,
+    /// also generate single-arm matches with an irrefutable pattern (tuple, variable, unit, alias)
+    /// on product / unit / integer scrutinees
+    pub irrefutable_matches: bool,
     /// also generate matches whose last arm is a wildcard/variable default
     pub default_arms: bool,
     /// also split a constructor's arm into several arms by a nested constructor pattern
@@ -365,6 +368,29 @@ impl Gen {
                 }
             }
         }
+        // single-arm irrefutable match on a non-data scrutinee
+        if self.menu.irrefutable_matches && n >= 4 {
+            for a in &self.menu.vts {
+                if matches!(a, VT::Data(_) | VT::Thk(_)) {
+                    continue;
+                }
+                for split in splits(n - 1, 2) {
+                    let vs = self.vals(ctx, a, split[0]);
+                    if vs.is_empty() {
+                        continue;
+                    }
+                    for p in self.pats(ctx, a) {
+                        let ctx2 = Self::extend(ctx, &p);
+                        let bodies = self.comps(&ctx2, ty, split[1]);
+                        for v in &vs {
+                            for b in &bodies {
+                                out.push(C::Match(v.clone(), usize::MAX, vec![(p.clone(), b.clone())]));
+                            }
+                        }
+                    }
+                }
+            }
+        }
         // match
         for d in &self.menu.datas {
             let k = self.data[*d].ctors.len();
@@ -525,7 +551,7 @@ pub struct Profile {
 
 pub fn profiles(thorough: bool) -> Vec<Profile> {
     let d = if thorough { 3 } else { 2 };
-    let base = Menu { vts: vec![], datas: vec![], codatas: vec![], ints: vec![1, 2], fix: false, exec: false, redex: false, vars_per_type: 2, alias_patterns: false, default_arms: false, nested_patterns: false };
+    let base = Menu { vts: vec![], datas: vec![], codatas: vec![], ints: vec![1, 2], fix: false, exec: false, redex: false, vars_per_type: 2, alias_patterns: false, irrefutable_matches: false, default_arms: false, nested_patterns: false };
     vec![
         Profile {
             name: "functions",
@@ -537,6 +563,12 @@ pub fn profiles(thorough: bool) -> Vec<Profile> {
             name: "products",
             menu: Menu { vts: vec![VT::Int, pair(), rec_nested(), rec_flat()], alias_patterns: true, ints: vec![1, 2], ..base.clone() },
             roots: vec![ret(VT::Int), ret(pair())],
+            size: 7 + d,
+        },
+        Profile {
+            name: "irrefutable-matches",
+            menu: Menu { vts: vec![VT::Int, pair()], irrefutable_matches: true, alias_patterns: false, ints: vec![1, 2], vars_per_type: 1, ..base.clone() },
+            roots: vec![ret(VT::Int)],
             size: 7 + d,
         },
         Profile {
